@@ -366,12 +366,17 @@ Qed.
 Lemma inv0 : forall r, inv r st0.
 Proof. intros r _. split; reflexivity. Qed.
 
+Lemma valid_subject_nonnil : forall s, valid_subject s = true -> is_nil s = false.
+Proof. intros s H. destruct s; [discriminate H|reflexivity]. Qed.
+
 Lemma run_request_good : forall c r d, top_ok (TRequest r d) = true ->
   forallb (rgood r) (run_request error_json c r d) = true.
 Proof.
-  intros c r d H. cbn [top_ok] in H. apply andb_true_iff in H. destruct H as [H Hd].
+  intros c r d H. cbn [top_ok] in H. unfold run_request.
+  destruct (is_nil (rreply r)); [reflexivity|]. cbn [orb] in H.
+  apply andb_true_iff in H. destruct H as [H Hd].
   apply andb_true_iff in H. destruct H as [Hs Hr].
-  destruct d as [|msg| | | |s]; cbn [run_request]; try reflexivity;
+  destruct d as [|msg| | | |s]; cbn [handle_request]; try reflexivity;
     try (cbn [forallb]; rewrite andb_true_r; apply reply_good; [exact Hs|]; apply error_json_ok; reflexivity).
   destruct (run_script_good c r s st0 Hs Hr Hd (inv0 r)) as [I G].
   apply finish_good; assumption.
@@ -656,7 +661,7 @@ Proof.
   intros c r k Hk Hs.
   destruct (unmarshalable_becomes_internal_error_pf c r st0 k Hk eq_refl Hs) as [j [E [Hi Hc]]].
   exists j. split; [|split; assumption].
-  cbn [run_request run_script]. rewrite E. reflexivity.
+  unfold run_request. rewrite (valid_subject_nonnil _ Hs). cbn [handle_request run_script]. rewrite E. reflexivity.
 Qed.
 
 (* events: an unmarshalable value publishes nothing (an error is logged); this is what the code does *)
@@ -687,7 +692,8 @@ Theorem nil_error_conformant_pf : forall c r, valid_subject (rreply r) = true ->
   run_request error_json c r (DRun [AW (WPanic (PPtr None))]) = [m] /\
   conformant m = true /\ is_internal_error (error_json None None) = true.
 Proof.
-  intros c r Hs m. split; [reflexivity|]. split; [reflexivity|]. split; [|reflexivity].
+  intros c r Hs m. unfold run_request. rewrite (valid_subject_nonnil _ Hs).
+  split; [reflexivity|]. split; [reflexivity|]. split; [|reflexivity].
   assert (G : rgood r m = true) by (apply reply_good; [exact Hs|]; destruct (rhttp r); reflexivity).
   apply andb_true_iff in G. apply G.
 Qed.
@@ -704,3 +710,7 @@ Proof.
   assert (G : rgood r m = true) by (apply reply_good; [exact Hs|]; apply error_json_ok, st_meta_good, I).
   apply andb_true_iff in G. apply G.
 Qed.
+
+(* ---------- a request without reply subject ---------- *)
+Theorem no_reply_subject_dropped_pf : forall c r d, rreply r = [] -> run_request error_json c r d = [].
+Proof. intros c r d H. unfold run_request. rewrite H. reflexivity. Qed.
